@@ -138,6 +138,11 @@ def exec_stmt(s, st, names, fns, depth):
         init = s.get("init")
         if init is None:
             return [st]
+        # `let c = &mut cursor;` / `let c = cursor;`: another name for the same cursor
+        tgt = init["a"] if init.get("e") == "ref" else init
+        if name is not None and tgt.get("e") == "path" and tgt["p"] in names:
+            names[name] = names[tgt["p"]]
+            return [st]
         res = exec_expr(init, st, names, fns, depth, want_value=True)
         out = []
         for st2, val in res:
